@@ -46,25 +46,40 @@ WIRE_STATUS = (True, 'not run')
 WIRE_PROPS = ('C01', 'C02', 'C03', 'C04', 'C05', 'C11')      # properties whose <prop>T module is about Generated/TranslatedWire.lean (tools/c2lean_wire.py)
 
 
+# which translated functions a property's <prop>T module is about (a function of another group leaving the subset is not this property's business)
+WIRE_GROUPS = {'C11': ('derive_session_event', 'mac_equal'), 'C05': ('mapper_matches', 'set_active_mapper', 'compareEthernetAddress')}
+WIRE_FAILED = {}
+
+
 def translate_status(prop):
-    return WIRE_STATUS if prop in WIRE_PROPS else TRANSLATE_STATUS
+    if prop not in WIRE_PROPS:
+        return TRANSLATE_STATUS
+    if not WIRE_STATUS[0]:
+        return WIRE_STATUS
+    special = set(f for fs in WIRE_GROUPS.values() for f in fs)
+    mine = [f for f in WIRE_FAILED if (f in WIRE_GROUPS[prop] if prop in WIRE_GROUPS else f not in special)]
+    if mine:
+        return (False, 'c2lean_wire: %s left the translatable subset: %s' % (', '.join(sorted(mine)), '; '.join(WIRE_FAILED[f] for f in sorted(mine))))
+    return WIRE_STATUS
 
 
 def translate_wire():
     """the byte writers (tools/c2lean_wire.py): regenerate Generated/TranslatedWire.lean from the working tree's lltdWire.c,
     lltdTlvOps.c and lltdEndian.h.  Same contract as translate()."""
-    global WIRE_STATUS
+    global WIRE_STATUS, WIRE_FAILED
     sys.path.insert(0, os.path.join(VERIF, 'tools'))
     import c2lean, c2lean_wire
+    WIRE_FAILED = {}
     target = os.path.join(LEAN, 'LLTD', 'Generated', 'TranslatedWire.lean')
     try:
         txt = c2lean_wire.translate(REPO, VERIF)
     except c2lean.Unsupported as e:
-        WIRE_STATUS = (False, 'c2lean_wire: lltdWire.c / lltdTlvOps.c / lltdEndian.h have left the translatable subset: %s' % e)
+        WIRE_STATUS = (False, 'c2lean_wire: the byte-level translation (lltdWire.c, lltdTlvOps.c, lltdEndian.h, derive_session_event, mapper_matches / set_active_mapper) is not possible: %s' % e)
         return WIRE_STATUS
     except Exception as e:
         WIRE_STATUS = (False, 'c2lean_wire crashed: %r' % (e,))
         return WIRE_STATUS
+    WIRE_FAILED = dict(c2lean_wire.FAILED)
     old = open(target).read() if os.path.exists(target) else None
     if old != txt:
         with open(target + '.tmp', 'w') as f:
